@@ -98,15 +98,20 @@ def run_config(job):
     else:
         system = oqupy.System(h0, gammas=[gam], lindblad_operators=[lop])
     rho0 = initial_state(d, cfg["init"], rng)
-    bath = oqupy.Bath(sz, corr)
+    coupling = {"diagonal": sz, "real": 0.6 * sz + 0.8 * sx, "complex": 0.5 * sz + 0.5 * sx + 0.7 * sy}[cfg["coupling"]]
+    bath = oqupy.Bath(coupling, corr)
+    ptfile = True if cfg["file"] else None          # a temporary file-backed process tensor
     end = NSTEPS * DT + DT / 4
     states, norms = [], None
     try:
         if cfg["method"] == "tempo":
             states = oqupy.Tempo(system, bath, params, rho0, 0.0, unique=cfg["unique"]).compute(end, progress_type="silent").states
         elif cfg["method"] == "pt+dynamics":
-            pt = oqupy.PtTempo(bath, 0.0, end, params, unique=cfg["unique"]).get_process_tensor(progress_type="silent")
+            pt = oqupy.PtTempo(bath, 0.0, end, params, unique=cfg["unique"], process_tensor_file=ptfile).get_process_tensor(
+                progress_type="silent")
             states = oqupy.compute_dynamics(system, initial_state=rho0, process_tensor=pt, progress_type="silent").states
+            if ptfile:
+                pt.remove()
         elif cfg["method"] == "mftempo":
             if cfg["sys"] == "timedep":
                 fs = oqupy.TimeDependentSystemWithField(lambda t, a: w0 * sz + (wx * np.cos(2 * t) + 0.2 * a.real) * sx)
@@ -118,7 +123,7 @@ def run_config(job):
                 end, progress_type="silent")
             states = d_.system_dynamics[0].states
         elif cfg["method"] == "tebd":
-            pt = oqupy.PtTempo(bath, 0.0, end, params).get_process_tensor(progress_type="silent")
+            pt = oqupy.PtTempo(bath, 0.0, end, params, process_tensor_file=ptfile).get_process_tensor(progress_type="silent")
             chain = oqupy.SystemChain([d, d, d])
             for i in range(3):
                 chain.add_site_hamiltonian(i, h0 * (1 + 0.1 * i))
@@ -126,6 +131,9 @@ def run_config(job):
             chain.add_nn_hamiltonian(1, sx, sx * 0.5)
             if cfg["sys"] == "dissipative":
                 chain.add_site_dissipation(2, lop, gam)
+                # incoherent hopping: two-site dissipators with non-normal operators on either site
+                chain.add_nn_dissipation(0, lop, lop.conj().T, 0.4)
+                chain.add_nn_dissipation(1, np.eye(d, dtype=complex), lop, 0.2)
             mps = oqupy.AugmentedMPS([rho0.copy(), initial_state(d, "mixed", rng), initial_state(d, "pure", rng)])
             t = oqupy.PtTebd(mps, chain, [pt, None, None], oqupy.PtTebdParameters(dt=DT, order=2, epsrel=EPSREL),
                              dynamics_sites=[0, 1, (1, 2)])
@@ -133,6 +141,8 @@ def run_config(job):
             norms = res["norm"]
             states = [(a, b, c) for a, b, c in zip(res["dynamics"][0].states, res["dynamics"][1].states,
                                                    res["dynamics"][(1, 2)].states)]
+            if ptfile:
+                pt.remove()
         elif cfg["method"] == "gibbs":
             g = oqupy.GibbsTempo(oqupy.System(h0), bath, oqupy.GibbsParameters(n_steps=NSTEPS, epsrel=EPSREL))
             g.compute(progress_type="silent")
@@ -160,7 +170,17 @@ def run(ctx):
     cfgs = gen.cases
     rng = probes.rng_for(ctx.seed, "c04-sample")
     order = list(rng.permutation(len(cfgs)))
-    take = order[:160] if quick else order
+    if quick:
+        # stratified: at least one configuration of every (method, coupling kind, storage, system kind, memory) class
+        seen, take = {}, []
+        for i in order:
+            c = cfgs[i]
+            g = (c["method"], c["coupling"], c["file"], c["sys"], c["mem"])
+            if seen.get(g, 0) < 2:
+                seen[g] = seen.get(g, 0) + 1
+                take.append(i)
+    else:
+        take = order
     jobs = [(cfgs[i], ctx.seed, int(i)) for i in take]
     runs = core.pmap(run_config, jobs, chunksize=2)
     good = []
